@@ -903,6 +903,11 @@ func (a *Association) initWithOutOfBandTokens(localInit *chunkInit, remoteInit *
 	a.lock.Lock()
 	defer a.lock.Unlock()
 
+	// The peer negotiates from the exchanged token alone: this endpoint accepts a zero
+	// checksum exactly when its own token announced that, whatever the association was
+	// configured with (the same rule as for interleaving below).
+	a.recvZeroChecksum = announcesZeroChecksum(localInit.params)
+
 	go a.readLoop()
 	go a.writeLoop()
 
@@ -932,6 +937,16 @@ func (a *Association) setPeerSupportedExtensions(extensions supportedExtensions)
 	a.peerForwardTSN = extensions.forwardTSN
 	a.peerInterleaving = extensions.interleaving
 	a.peerIForwardTSN = extensions.iForwardTSN
+}
+
+func announcesZeroChecksum(params []param) bool {
+	for _, param := range params {
+		if zeroChecksum, ok := param.(*paramZeroChecksumAcceptable); ok {
+			return zeroChecksum.edmid == dtlsErrorDetectionMethod
+		}
+	}
+
+	return false
 }
 
 func (a *Association) setSendZeroChecksum(params []param) {
